@@ -416,6 +416,21 @@ fn exec(op: &Op, l: &mut Local, t: &Arc<Tables>) -> Result<ObsVal, String> {
             s.world().actors[l.actor].blocking_call = false;
             Ok(ObsVal::Unit)
         }
+        Op::ChurnScopes { n, slot } => {
+            sched().world().actors[l.actor].bulk = true;
+            let span = match slot {
+                Some(sl) => Some(get_span(t, *sl)?),
+                None => None,
+            };
+            for _ in 0..*n {
+                match &span {
+                    Some(s) => drop(s.set_local_parent()),
+                    None => drop(fastrace::local::LocalCollector::start()),
+                }
+            }
+            sched().world().actors[l.actor].bulk = false;
+            Ok(ObsVal::Unit)
+        }
         Op::BuildEvent { name } => {
             l.built_events.insert(name.clone(), Event::new(name.clone()));
             Ok(ObsVal::Unit)
